@@ -192,6 +192,10 @@ def run (st : St) : List String → List String → Option (List String)
 def handle (line : String) : String :=
   match fields line with
   | "scan" :: _ => Mutagen.Driver.ScanText.handle ((line.drop 5).toString)
+  -- concurrent directory↔link flipping against the real primitives: in the model every open is
+  -- `openat(O_NOFOLLOW)` (Properties/C17 `open_no_follow`, `open_flags_never_follow`), so every
+  -- interleaving is contained; the implementation side reports an escape through its oracle.
+  | "race" :: _ => "race:contained"
   | "ops" :: fs :: items =>
     match parseFS fs with
     | some fs =>
